@@ -124,6 +124,12 @@ def specAtomic (st : SpecTables) (c t : Nat) : Bool :=
   | some d, some ty => derives d ty && ty != .error
   | _, _ => false
 
+/-- F&O 3.1 §1.6.3: an atomic value matches xs:numeric iff its dynamic type derives from xs:double, xs:float or xs:decimal -/
+def specNumeric (st : SpecTables) (c : Nat) : Bool :=
+  match st.clsTy c with
+  | some d => isNumericT d
+  | none => false
+
 /-- kind tests §2.5.5.3-2.5.5.6 for a node -/
 def specLeafNode (k : Kind) (name : Nat) (kids : List Nat) : Leaf → Bool
   | .anyNode => true                                   -- node() matches any node
@@ -145,7 +151,7 @@ def specLeaf (st : SpecTables) (l : Leaf) : Item → Bool
     (match l with
      | .item => true
      | .atomic t => specAtomic st c t
-     | .numeric => (match st.clsTy c with | some d => isNumericT d | none => false)
+     | .numeric => specNumeric st c
      | _ => false)
   | .node k name kids _ =>
     (match l with
